@@ -485,16 +485,19 @@ def load_known(pid):
     """open known findings of a property: entries of known_findings.json (and known_findings/*.json while building)
     {"property": "C16", "status": "open"|"fixed", "key": {...what identifies the failing input/call site...}, "what": "..."}"""
     entries = []
-    files = [KNOWN]
+    files = []
     kd = os.path.join(VERIF, "known_findings")
     if os.path.isdir(kd):
-        files += [os.path.join(kd, f) for f in sorted(os.listdir(kd)) if f.endswith(".json")]
+        files += [os.path.join(kd, f) for f in sorted(os.listdir(kd)) if re.fullmatch(r"C\d+\.json", f)]
+    files.append(KNOWN)          # the merged file (tools/merge_known.py); duplicates of the per-property files are dropped below
     for fn in files:
         try:
             k = json.load(open(fn))
         except (OSError, ValueError):
             continue
-        entries += k.get("findings", [])
+        for e in k.get("findings", []):
+            if e not in entries:
+                entries.append(e)
     return [e for e in entries if e.get("property") == pid and e.get("status", "open") == "open"]
 
 
